@@ -28,6 +28,8 @@ pub struct Step<'a, K: Kit> {
     pub used: usize,
     /// true: the whole history ran inside as few solve calls as possible
     pub batch: bool,
+    /// the sample of this iteration when it did not come from the alphabet (deep seeded runs)
+    pub sample: Option<&'a K::S>,
 }
 
 pub struct BfsStats {
@@ -92,7 +94,7 @@ pub fn bfs_tree<K: Kit>(
                     match run {
                         Err(c) => on_caught(hist, l, c, &mut lrep),
                         Ok((rig, result, used, post, log_mark, cb_before, cb_after)) => {
-                            let st = Step { sc, hist, letter: l, pre, post: &post, result: &result, rig: &rig, log_mark, cb_before, cb_after, used, batch: false };
+                            let st = Step { sc, hist, letter: l, pre, post: &post, result: &result, rig: &rig, log_mark, cb_before, cb_after, used, batch: false, sample: None };
                             on_step(&st, &mut lrep);
                             drop(rig);
                             // ---- batch mode: the same history fed through as few solve calls as
@@ -119,7 +121,7 @@ pub fn bfs_tree<K: Kit>(
                                             if post2.key() != post.key() {
                                                 lrep.count("batch_vs_stepwise_trees_differ", 1);
                                             }
-                                            let st2 = Step { sc, hist, letter: l, pre, post: &post2, result: &result2, rig: &rig2, log_mark: log_mark2, cb_before: cb_before2, cb_after: cb_after2, used: 1, batch: true };
+                                            let st2 = Step { sc, hist, letter: l, pre, post: &post2, result: &result2, rig: &rig2, log_mark: log_mark2, cb_before: cb_before2, cb_after: cb_after2, used: 1, batch: true, sample: None };
                                             on_step(&st2, &mut lrep);
                                         }
                                     }
